@@ -227,6 +227,9 @@ class Prov:
         out = set()
         args = c.args[:1] if pt == "poll_body" or c.matches(r"::poll$") else c.args
         for a in args:
+            pa = op_place(a)
+            if pa is not None and not pa["p"] and self.body.local_ty(pa["l"]).startswith(("{closure@", "[closure@")):
+                continue   # a closure passed to an adaptor is not the value
             o = self.origins_op(a)
             # closures passed to adapters are not the value
             out |= {x for x in o if not (x[0] == "const" and dict(x[1]).get("fn"))}
